@@ -164,7 +164,7 @@ func runC17b(c *Ctx) {
 	r := c.Rng
 	nh := c.N(6, 120)
 	for hi := 0; hi < nh; hi++ {
-		cfg := baseCfgs[r.Intn(len(baseCfgs))]
+		cfg := baseCfg(r, r.Intn(len(baseCfgs)))
 		h := genHistory(r, cfg, histOpts{units: 3 + r.Intn(5), maxCols: 3, maxRows: 2, rotations: true, ignorables: true})
 		h.encode(c)
 		D, ok := checkFullRun(c, "C17", h, "baseline")
